@@ -24,7 +24,8 @@ RULE = (
     "item(s) / source / target IDs and the content of carried stories and items); (I2) str(A) == str(A'); (I3) str(B) == str(B') and the "
     "re-used object raises exactly when the fresh copy does; (I4) no Element object belongs to two of {A, A', B, B', the six most recent message objects} (shared mutable content, even where no message can yet make it visible), nor does a non-empty attribute dictionary; (I6) a message object edited through its public .xml and merged again contributes its current content, like a fresh parse of its str() (one edit in three also swaps the whole message element for a copy); the live side of each pair is merged through msg.merge(ro) or ro += msg (chosen by the message text), the reference side always through +=; (I5, collections) MosReader objects handed to a second MosCollection give the same result as freshly built readers.  Non-trivial = a step whose message "
     "edits a story that an earlier message object carried, or a re-use step of a payload-carrying "
-    "object; distinct = distinct (state text, message text) digests.")
+    "object; distinct = distinct (state text, message text) digests."
+    ' Round 11: the four running orders of a world are read from the same text through MosFile.from_string and RunningOrder.from_string in turn.')
 ASSUMPTIONS = []
 MANDATORY = ['message-edited-then-merged', 'readers-in-two-collections', 'same-object-merged-twice', 'edit-inside-carried-story', 'reuse-of-payload-object', 'reuse-after-edit',
              'carried-by:StoryAppend', 'carried-by:StoryInsert', 'carried-by:StoryReplace',
